@@ -55,6 +55,7 @@ class Side:
         cfg = next(c for c in configs.named("thorough") if c["name"] == cfgname)
         cfg = dict(cfg); cfg["renderer"] = "ast"
         self.md = configs.make(cfg)
+        self.plugins = list(cfg.get("plugins") or [])
 
     def real(self, kind, s):
         try:
@@ -62,7 +63,8 @@ class Side:
                 st = self.md.block.state_cls()
                 st.process(norm(s))
                 self.md.block.parse(st)
-                return "ok " + canon(st.tokens) + " " + canon({"ref_links": st.env["ref_links"]})
+                # the whole env (plugins keep their definitions there: `ref_footnotes`, `ref_abbrs`) except instrumentation keys
+                return "ok " + canon(st.tokens) + " " + canon({k: v for k, v in st.env.items() if not k.startswith("__")})
             if kind == "inline":
                 toks = self.md.inline(s, {"ref_links": json.loads(json.dumps(REFS))})
                 return "ok " + canon(toks)
@@ -94,10 +96,20 @@ def inline_text(rng):
     return "".join(parts)
 
 
-def inputs(kind, rng, n, maxlen):
+BLOCK_PLUGINS = ("table", "footnotes", "task_lists", "def_list", "abbr")
+
+
+def inputs(kind, rng, n, maxlen, plugins=()):
+    """`plugins`: block plugins of the configuration; half of the block / doc inputs then come from gen.md_plugins"""
     out = []
+    plugins = [p for p in plugins if p in BLOCK_PLUGINS]
     while len(out) < n:
-        s = inline_text(rng) if kind == "inline" else gen.md_any(rng, 7)
+        if kind == "inline":
+            s = inline_text(rng)
+        elif plugins and rng.random() < 0.5:
+            s = gen.md_plugins(rng, plugins)
+        else:
+            s = gen.md_any(rng, 7)
         if len(s) <= maxlen and not common.has_surrogate(s):
             out.append(s)
     return out
@@ -139,6 +151,60 @@ def minimise(side, kind, s):
     return s
 
 
+def firing_stats(side, kind, docs):
+    """how often the plugin handlers and hooks fired on these inputs (implementation side): for every registered (non-core) block / inline rule
+    the number of handler calls and of calls that returned a position (falsy return = the rule declined); the plugin token types in the results
+    (hooks have no handler to wrap: `task_list_item` / `footnotes` tokens count the firings of task_lists_hook / md_footnotes_hook)"""
+    import collections
+    from mistune.block_parser import BlockParser
+    from mistune.inline_parser import InlineParser
+    md = side.md
+    cnt = collections.Counter()
+    saved = []
+    for parser, core in ((md.block, BlockParser.SPECIFICATION), (md.inline, InlineParser.SPECIFICATION)):
+        for name, fn in list(parser._methods.items()):
+            if name in core:
+                continue
+            def wrap(m, state, _fn=fn, _name=name):
+                cnt[_name + ":called"] += 1
+                r = _fn(m, state)
+                if r:
+                    cnt[_name + ":accepted"] += 1
+                return r
+            saved.append((parser, name, fn))
+            parser._methods[name] = wrap
+    types = ("table", "table_row", "footnote_ref", "footnotes", "footnote_item", "task_list_item", "def_list", "def_list_head", "def_list_item", "abbr")
+    def walk(toks):
+        for t in toks:
+            if t.get("type") in types:
+                cnt["tok:" + t["type"]] += 1
+                if t["type"] == "table_row" and any(c.get("attrs", {}).get("align") for c in t.get("children", [])):
+                    cnt["tok:table_row(aligned)"] += 1
+            if "children" in t:
+                walk(t["children"])
+    try:
+        for s in docs:
+            try:
+                if kind == "block":
+                    st = md.block.state_cls(); st.process(norm(s)); md.block.parse(st)
+                    toks = st.tokens
+                    for k in ("ref_footnotes", "ref_abbrs"):
+                        if st.env.get(k):
+                            cnt["docs with env[%s]" % k] += 1
+                else:
+                    toks = md(s)
+                before = sum(cnt[k] for k in cnt if k.startswith("tok:"))
+                walk(toks)
+                if sum(cnt[k] for k in cnt if k.startswith("tok:")) > before:
+                    cnt["docs with a plugin token"] += 1
+            except Exception:
+                cnt["exceptions"] += 1
+    finally:
+        for parser, name, fn in saved:
+            parser._methods[name] = fn
+    return dict(sorted(cnt.items()))
+
+
 def decode_canon(c):
     """human-readable rendering of a canonical string (for debugging)"""
     import re
@@ -156,11 +222,15 @@ def main():
     ap.add_argument("--seed", type=int, default=0)
     ap.add_argument("--maxlen", type=int, default=200)
     ap.add_argument("--show", type=int, default=5)
+    ap.add_argument("--gen", choices=["auto", "stock"], default="auto", help="auto: mix in gen.md_plugins for the block plugins of the configuration; stock: gen.md_any only")
+    ap.add_argument("--stats", action="store_true", help="print how often each plugin handler / hook fired on the implementation side")
     ap.add_argument("--input", help="check one literal input (Python string literal, e.g. \"'> a\\n'\")")
     a = ap.parse_args()
     side = Side(a.cfg)
     rng = random.Random(a.seed)
-    docs = [eval(a.input)] if a.input else inputs(a.kind, rng, a.n, a.maxlen)
+    docs = [eval(a.input)] if a.input else inputs(a.kind, rng, a.n, a.maxlen, () if a.gen == "stock" else side.plugins)
+    if a.stats:
+        print("firing counts (%s/%s, %d inputs): %s" % (a.kind, a.cfg, len(docs), firing_stats(side, a.kind, docs)))
     bad = compare(side, a.kind, docs)
     print("%s/%s: %d inputs, %d disagreements" % (a.kind, a.cfg, len(docs), len(bad)))
     for s, want, got in bad[: a.show]:
